@@ -141,18 +141,31 @@ func newStrct(typ reflect.Type) *strct {
 		usages: 1,
 	}
 	field, ok := typ.FieldByName("Pos")
-	if ok && positionType.ConvertibleTo(field.Type) {
+	if ok && settable(typ, field.Index) && positionType.ConvertibleTo(field.Type) {
 		s.posFieldIndex = field.Index
 	}
 	field, ok = typ.FieldByName("EndPos")
-	if ok && positionType.ConvertibleTo(field.Type) {
+	if ok && settable(typ, field.Index) && positionType.ConvertibleTo(field.Type) {
 		s.endPosFieldIndex = field.Index
 	}
 	field, ok = typ.FieldByName("Tokens")
-	if ok && field.Type == tokensType {
+	if ok && settable(typ, field.Index) && field.Type == tokensType {
 		s.tokensFieldIndex = field.Index
 	}
 	return s
+}
+
+// settable reports whether the field at index can be set on a fresh value of typ: a field promoted through an
+// embedded pointer cannot (the pointer is nil, and embedded pointers are not part of the production).
+func settable(typ reflect.Type, index []int) bool {
+	for _, i := range index[:len(index)-1] {
+		f := typ.Field(i)
+		if f.Type.Kind() == reflect.Ptr {
+			return false
+		}
+		typ = f.Type
+	}
+	return true
 }
 
 func (s *strct) String() string   { return ebnf(s) }
